@@ -1,8 +1,10 @@
 import Oracle.Util
-/-! Oracle handlers for C04 (model functions exposed on the line protocol). -/
+import MobiusModel.SessionOracle
+/-! Oracle handlers for C04: the Session / Scan / readFull / BanGate model on the line protocol
+    (argument parsing and printing live in MobiusModel/SessionOracle.lean). -/
 namespace Oracle
 open Mobius
 
-def c04Handlers : List (String × Handler) := []
+def c04Handlers : List (String × Handler) := SessionOracle.handlers
 
 end Oracle
